@@ -471,6 +471,7 @@ def check_C10(F, tier, t0):
     front_end(R, F)
     guarded(R, 'X9', engine_x.rule_X9, F, R)
     guarded(R, 'X12', engine_x.rule_X12, F, R)
+    guarded(R, 'X12 header', engine_x.rule_X12_header, F, R)
     # the header is free_vars: it is right only if the free-variable analysis is
     E = make_engine(F)
     guarded(R, 'S var_is_free', run_S, R, E, [FRF], spec_bdd.B, False)
